@@ -149,6 +149,17 @@ func seqRound(sc SeqCase) (v kit.Verdict) {
 			recorded++
 		}
 	}
+	// entry validity: an exchange whose request could not be converted
+	// contributes no entry, and none without a request - also next to the
+	// correct entries of the exchanges recorded before and after it
+	for k, e := range es {
+		if e.Request == nil {
+			v.Addf("C16/sequence/entry/entry-without-request-among-later-entries", "exported entry %d of %d has \"request\": null (response attached: %v); %d of %d requests had been recorded without error", k, len(es), e.Response != nil, recorded, n)
+		}
+	}
+	if len(v) > 0 {
+		return v
+	}
 	if len(es) != recorded {
 		return kit.Failf("C16/sequence/entries/count-differs", "%d requests were recorded without error, the export holds %d entries", recorded, len(es))
 	}
@@ -157,7 +168,9 @@ func seqRound(sc SeqCase) (v kit.Verdict) {
 	k := 0
 	for i, x := range xs {
 		if x.reqErr != nil {
-			per[i].Addf("C16/entry/"+reqShape(x.mq)+"/request-not-recorded", "ModifyRequest = %v for a well-formed request", x.reqErr)
+			if x.mq.Spec.Body.Kind != "badform" {
+				per[i].Addf("C16/entry/"+reqShape(x.mq)+"/request-not-recorded", "ModifyRequest = %v for a well-formed request", x.reqErr)
+			}
 			continue
 		}
 		e := es[k]
@@ -218,7 +231,7 @@ func seqSig(sig string, earlier bool) string {
 func genSeq(t *rapid.T) SeqCase {
 	// bodies stay below 30 kB: large bodies trigger garbage collections, which
 	// empty sync.Pools and hide exactly what this variant is after
-	o := msggen.Options{MaxBody: 30000, Forms: true}
+	o := msggen.Options{MaxBody: 30000, Forms: true, BadForms: true}
 	sc := SeqCase{Overlap: rapid.Bool().Draw(t, "overlap"), Handler: rapid.Bool().Draw(t, "handler"), Rounds: 3}
 	n := rapid.IntRange(2, 4).Draw(t, "n")
 	for i := 0; i < n; i++ {
@@ -292,6 +305,15 @@ func seqClasses(sc SeqCase) []string {
 	if comp > 0 {
 		cl = append(cl, "compressed-response")
 	}
+	for i, x := range sc.Exchanges {
+		if x.Req.Body.Kind == "badform" && sc.Post.Captures(x.Req.ContentType) {
+			cl = append(cl, "unparseable-form-captured")
+			if i < len(sc.Exchanges)-1 {
+				cl = append(cl, "unparseable-form-then-later-exchange")
+			}
+			break
+		}
+	}
 	bodies, smaller, larger := seqSizes(sc)
 	if bodies >= 2 {
 		cl = append(cl, "two-response-bodies")
@@ -315,7 +337,7 @@ var propSequence = &kit.Prop[SeqCase]{
 	NonTrivial: func(sc SeqCase) bool { b, _, _ := seqSizes(sc); return b >= 2 },
 	Classes:    seqClasses,
 	Gates: map[string]float64{"nontrivial": 0.5, "later-smaller": 0.25, "later-larger": 0.25, "other-goroutine": 0.3, "overlapping": 0.3,
-		"one-after-the-other": 0.3, "compressed-response": 0.3, "body-all": 0.6},
+		"one-after-the-other": 0.3, "compressed-response": 0.3, "body-all": 0.6, "unparseable-form-then-later-exchange": 0.05},
 }
 
 func TestSequence(t *testing.T) {
